@@ -61,6 +61,8 @@ func main() {
 			files = schema.MX()
 		case "mxall":
 			files = schema.MXAll()
+		case "mxr":
+			files = schema.MXR()
 		default:
 			fmt.Fprintln(os.Stderr, "unknown set", set)
 			os.Exit(2)
